@@ -799,14 +799,17 @@ func (c *Client) Start() (addr net.Addr, err error) {
 	go func() {
 		defer c.clientWaitGroup.Done()
 		defer c.pipesWaitGroup.Done()
-		defer close(linesCh)
 
 		scanner := bufio.NewScanner(runner.Stdout())
 		for scanner.Scan() {
 			linesCh <- scanner.Text()
 		}
+		close(linesCh)
 		if scanner.Err() != nil {
 			c.logger.Error("error encountered while scanning stdout", "error", scanner.Err())
+			// The scanner gives up on a line longer than its buffer. Keep
+			// draining stdout so the plugin never blocks writing to it.
+			io.Copy(io.Discard, runner.Stdout())
 		}
 	}()
 
